@@ -183,6 +183,38 @@ def odd_paths_part(check):
                     return
 
 
+def array_expansion_part(check):
+    """a fixed-size array type is valid Rust whatever its length; TypeScript writes `[T; N]` as an N-tuple, so nested arrays multiply:
+    `[[[[[u8; 256]; 256]; 256]; 256]; 256]` (a legal 1 TiB type) asks for a text of 2^40 elements.  Run under an address-space limit of
+    3 GiB (so that the machine is not taken down): every language answers with output or a diagnostic - or, TypeScript, aborts on the
+    failed allocation (recorded finding typescript-array-tuple-expansion)"""
+    import resource, subprocess
+    src = "#[typeshare]\npub struct Big { pub table: [[[[[u8; 256]; 256]; 256]; 256]; 256] }\n"
+    def limit():
+        resource.setrlimit(resource.RLIMIT_AS, (3 << 30, 3 << 30))
+    for lang in LANGS:
+        with Scratch() as sc:
+            sc.write("proj/src/lib.rs", src)
+            e = dict(ENV); e["RUST_LOG"] = "info"; e.pop("RUST_BACKTRACE", None)
+            try:
+                p = subprocess.run([CLI_BIN, "--lang", lang, "-o", sc.path("out." + EXT[lang])] + lang_args(lang) + [sc.path("proj")], cwd=sc.dir, env=e,
+                                   stdout=subprocess.PIPE, stderr=subprocess.PIPE, text=True, errors="replace", timeout=120, preexec_fn=limit)
+                rc, err = p.returncode, p.stderr
+            except subprocess.TimeoutExpired:
+                rc, err = None, "no answer within 120 s"
+        check.saw(("array-expansion", lang), nontrivial=True)
+        check.count("array-expansion-rc=%s" % rc)
+        if rc in (0, 1) and "panicked at" not in err:
+            continue
+        witness = {"lang": lang, "source": src, "address_space_limit": "3 GiB", "exit_status": rc, "stderr": err[-400:]}
+        if lang == "typescript" and check.known("typescript-array-tuple-expansion", witness):
+            continue
+        check.violation("typeshare --lang %s on a five-fold nested `[_; 256]` array type: %s" % (
+            lang, "did not terminate" if rc is None else "exit status %s (%s)" % (rc, err.strip().splitlines()[-1][:200] if err.strip() else "")),
+                        case=witness, impl={"rc": rc, "stderr": err[-1500:]}, failing_input=True)
+        return
+
+
 def error_among_many_part(check):
     """one file the parser cannot read among hundreds of good ones: the collector stops at the first error while the walker
     threads are still delivering results - the run must end with the diagnostic naming that file (exit 1), not with a panic in a
@@ -486,6 +518,11 @@ def run(check):
         error_among_many_part(check)
     if not check.has_failing():
         odd_paths_part(check)
+    if not check.has_failing():
+        array_expansion_part(check)
+    if not check.has_failing():
+        import c03
+        c03.quantity_part(check, judge="crash")
     if not check.has_failing():
         multi_crate_part(check)
     if not check.has_failing():
